@@ -678,6 +678,25 @@ func c03Frames(c *Ctx, p *Prog, m *Model) {
 			}
 			return true
 		}
+		// the identity test of the remove family cannot itself fail: comparing two interface values panics when both hold
+		// an uncomparable dynamic type (the package's own writer list LWs is one, and is a LogWriter)
+		if (op.kind == "remove" || op.kind == "removelevel") && r.Property == "C03" {
+			ws := uncomparableCompares(p, fn)
+			r.Check(len(ws) == 0, "R03.3", "identity:dualWriter."+n, p.FuncPos(fn), "the identity test cannot panic", "removing a writer of an uncomparable type panics instead of deleting it: "+strings.Join(ws, "; "))
+		}
+		// an add/addlevel operation appends once: on no path is its list stored twice (a fall-through after the first
+		// store appends the same destination a second time, and remove then takes out only one of the two)
+		if op.kind == "add" || op.kind == "addlevel" {
+			isMine := map[ssa.Instruction]bool{}
+			for _, ef := range mine {
+				if (op.kind == "addlevel") == (ef.Kind == "mapupdate") {
+					isMine[outer(ef)] = true
+				}
+			}
+			if _, hi := countOnPaths(fn, func(in ssa.Instruction) bool { return isMine[in] }); hi > 1 || hi == -1 {
+				probs = append(probs, "on some path the list is stored more than once: the writer given is added twice (each record is then written to it twice, and a remove leaves one copy behind)")
+			}
+		}
 		for _, ef := range mine {
 			pos := p.Pos(instrPos(ef.Instr))
 			isOld := func(t *Term) bool { return t.isFieldOf(recv, ef.Field) }
@@ -1404,7 +1423,6 @@ func sources2(v ssa.Value) []ssa.Value {
 	return out
 }
 
-
 func isCallTo(v ssa.Value, fn *ssa.Function) bool {
 	c, ok := v.(*ssa.Call)
 	return ok && calleeOf(c) == fn
@@ -1425,7 +1443,6 @@ func storedToField(v ssa.Value, field string) bool {
 	}
 	return false
 }
-
 
 type edgeVal struct {
 	v    ssa.Value
